@@ -426,7 +426,7 @@ func checkContainerFS(c *Check) (int64, int64) {
 		cd := controlDeps(maskFn)
 		for _, b := range maskFn.Blocks {
 			ret, ok := b.Instrs[len(b.Instrs)-1].(*ssa.Return)
-			if !ok || len(ret.Results) != 1 || !isNilConst(ret.Results[0]) {
+			if !ok || len(ret.Results) != 1 || !isNilConst(retVal(ret, 0)) {
 				continue
 			}
 			g := cd.guardOf(b)
